@@ -452,7 +452,7 @@ pub fn run(ctx: &Ctx) -> CheckOutput {
     }
     for n in if quick { vec![3usize, 8, 9, 13, 17] } else { vec![2, 3, 5, 8, 9, 11, 13, 16, 17, 20, 24, 33] } {
         for (spec, k) in configs_for(n) {
-            let phases = if quick { 3 } else { 4 };
+            let phases = if quick || n > 13 { 3 } else { 4 };
             jobs.push(Box::new(move || {
                 let mut st = Stats::default();
                 let sink = Sink::new();
